@@ -21,6 +21,8 @@ def run(ctx):
     monitor.enable(*monitors(ctx))
     from .. import w_suite
     w_suite.maybe(ctx)      # thorough tier: the repository's own tests under this property's monitors
+    from .. import w_misc
+    w_misc.drive_session(ctx, ctx.tier)   # long-lived signature objects through many operations
     ctx.floor('C02.embed_calls', 500)
     ctx.floor('C02.exactness_checked', 200)
     ctx.floor('C02.law_fold', 20)
